@@ -1,4 +1,5 @@
 mod cli;
+mod dslgen;
 mod evidence;
 mod ledger;
 mod model;
@@ -51,6 +52,8 @@ fn main() {
         "C10" => props::c10::run(&mut ctx),
         "C11" => props::c11::run(&mut ctx),
         "C12" => props::c12::run(&mut ctx),
+        "C13" => props::c13::run(&mut ctx),
+        "C14" => props::c14::run(&mut ctx),
         x => { eprintln!("no harness for {x}"); std::process::exit(2); }
     }
     let mut j = ctx.ev.to_json();
